@@ -41,9 +41,22 @@ import (
 // simLogger discards everything except consensus failures, which it records.
 type simLogger struct{ n *simNode }
 
-func (l simLogger) Debug(string, ...interface{}) {}
-func (l simLogger) Info(string, ...interface{})  {}
+var debugLog = os.Getenv("CONSIM_DEBUG") != ""
+
+func (l simLogger) Debug(msg string, kv ...interface{}) {
+	if debugLog && os.Getenv("CONSIM_DEBUG") == "2" {
+		fmt.Fprintln(os.Stderr, "D", l.n.name, msg, fmt.Sprint(kv...))
+	}
+}
+func (l simLogger) Info(msg string, kv ...interface{}) {
+	if debugLog {
+		fmt.Fprintln(os.Stderr, "I", l.n.name, msg, fmt.Sprint(kv...))
+	}
+}
 func (l simLogger) Error(msg string, kv ...interface{}) {
+	if debugLog {
+		fmt.Fprintln(os.Stderr, "E", l.n.name, msg, fmt.Sprint(kv...))
+	}
 	if strings.HasPrefix(msg, "CONSENSUS FAILURE") {
 		s := ""
 		for i := 0; i+1 < len(kv); i += 2 {
@@ -133,6 +146,7 @@ type walWrap struct {
 	inner      cs.WAL
 	path       string // head file
 	headSynced int64
+	headIdx    int
 }
 
 func (w *walWrap) headSize() int64 {
@@ -143,11 +157,33 @@ func (w *walWrap) headSize() int64 {
 	return st.Size()
 }
 
+func (w *walWrap) groupIdx() int {
+	if bw, ok := w.inner.(*cs.BaseWAL); ok {
+		return bw.Group().MaxIndex()
+	}
+	return 0
+}
+
 func (w *walWrap) noteSync() {
 	sz := w.headSize()
+	idx := w.groupIdx()
 	w.n.mu.Lock()
 	w.headSynced = sz
+	w.headIdx = idx
 	w.n.mu.Unlock()
+}
+
+// syncedLen returns the acknowledged-synced length of the CURRENT head file (0 if the head
+// was rotated since the last acknowledged sync: the rotated file is complete and synced, the
+// new head holds nothing acknowledged yet).
+func (w *walWrap) syncedLen() int64 {
+	idx := w.groupIdx()
+	w.n.mu.Lock()
+	defer w.n.mu.Unlock()
+	if idx != w.headIdx {
+		return 0
+	}
+	return w.headSynced
 }
 
 func (w *walWrap) Write(m cs.WALMessage) error {
@@ -158,14 +194,7 @@ func (w *walWrap) Write(m cs.WALMessage) error {
 	if w.n.ctl.Dead() {
 		return nil
 	}
-	before := w.headSize()
 	err := w.inner.Write(m)
-	if after := w.headSize(); after < before {
-		// head rotated away under us (only by the group's ticker; not during a call) - keep bound sane
-		w.n.mu.Lock()
-		w.headSynced = 0
-		w.n.mu.Unlock()
-	}
 	w.n.sim.onWALWrite(w.n, m, false)
 	w.n.point("wal:Write:post")
 	return err
@@ -258,6 +287,7 @@ func (p *pvWrap) SignVote(chainID string, vote *tmproto.Vote) error {
 		p.n.sim.onSigned(p.n, chainID, vote, nil)
 	} else {
 		p.n.sim.env.Count("probe.sign_refused")
+		p.n.sim.noteRefusal(p.n, vote.Height)
 	}
 	p.n.point("pv:SignVote:post")
 	return err
@@ -276,6 +306,7 @@ func (p *pvWrap) SignProposal(chainID string, prop *tmproto.Proposal) error {
 		p.n.sim.onSigned(p.n, chainID, nil, prop)
 	} else {
 		p.n.sim.env.Count("probe.sign_refused")
+		p.n.sim.noteRefusal(p.n, prop.Height)
 	}
 	p.n.point("pv:SignProposal:post")
 	return err
@@ -414,11 +445,12 @@ func (n *simNode) onPoint(label string, idx int) {
 	}
 	n.crashAt = 0
 	ci := &crashInfo{label: label, point: idx}
-	if n.wal != nil {
-		ci.hs = n.wal.headSynced
-	}
 	n.crashed = ci
+	w := n.wal
 	n.mu.Unlock()
+	if w != nil {
+		ci.hs = w.syncedLen()
+	}
 	ci.wal = snapshotDir(filepath.Dir(n.walFile()))
 	n.ctl.Kill()
 	runtime.Goexit()
@@ -495,7 +527,7 @@ func (n *simNode) boot() {
 		return
 	}
 	n.wal = &walWrap{n: n, inner: inner, path: n.walFile()}
-	n.wal.headSynced = n.wal.headSize()
+	n.wal.noteSync()
 	n.cs.VerifSetWAL(n.wal)
 	if err := n.cs.Start(); err != nil {
 		n.mu.Lock()
@@ -508,7 +540,7 @@ func (n *simNode) boot() {
 		// the repair path of OnStart replaced the WAL by a fresh BaseWAL: wrap it again
 		s.env.Count("probe.wal_repair_on_start")
 		n.wal = &walWrap{n: n, inner: w, path: n.walFile()}
-		n.wal.headSynced = n.wal.headSize()
+		n.wal.noteSync()
 		n.cs.VerifSetWAL(n.wal)
 	}
 	n.mu.Lock()
